@@ -23,7 +23,7 @@ func (C11) Plan(tier string) core.Plan {
 
 func (C11) Info() core.Info {
 	return core.Info{
-		Rule:        "worlds in which 1-2 run-once converters (positional, struct, pointer-struct and built output forms, with and without inputs) sit at a PRNG-chosen position of a conversion chain and feed 1-3 consumers within one call (diamonds). Sequential histories of 2-8 Call / Convert / Redefine / call-of-redefined operations on one or two targets with fresh option values per operation, fault once_first_fails (the first execution returns an error). Concurrent histories: 2-4 simulated caller threads (S2 baton scheduler, seeded preemption at every woven yield point incl. targeted preemption at single sites) whose operations need the same run-once converter. Oracle: the body executes at most once over the world's lifetime; every value a consumer receives from it stems from execution 1; after a failed first execution every operation that reports an injected error reports that same error value. Non-trivial: the run-once party was needed by >=2 operations; distinct = distinct (world shape, event-log hash)",
+		Rule:        "worlds in which 1-2 run-once converters (positional, struct, pointer-struct and built output forms, with and without inputs) sit at a PRNG-chosen position of a conversion chain and feed 1-3 consumers within one call (diamonds). Sequential histories of 2-8 Call / Convert / Redefine / call-of-redefined operations on one or two targets with fresh option values per operation, fault once_first_fails (the first execution returns an error). Concurrent histories: 2-4 simulated caller threads (S2 baton scheduler, seeded preemption at every woven yield point incl. targeted preemption at single sites) whose operations need the same run-once converter. Oracle: the body executes at most once over the world's lifetime; every value a consumer receives from it stems from execution 1; after a failed first execution every operation that reports an injected error reports that same error value; run-once targets with and without parameters; FuncName after FuncOnce; an injected error must stem from this operation or from a run-once memo (history: a redefined use fails before the once target is reached). Non-trivial: the run-once party was needed by >=2 operations; distinct = distinct (world shape, event-log hash)",
 		Assumptions: []string{"a use 'after the first' is judged through provenance: tokens minted by the run-once party carry its execution number"},
 		Probes:      []string{"c11_once_needed_ge2_ops", "c11_diamond_within_call", "c11_first_exec_failed", "c11_cached_error_seen", "c11_errors_explained", "c11_ptr_struct_once", "c11_redefine_planned", "c11_concurrent_worlds", "c11_threads_overlapped", "s1_nonidentity_perms"},
 		Real:        realComponents,
